@@ -1,9 +1,11 @@
 """C10 — Posterior-sample collections persist exactly and keep chain-major order."""
+from pyvc.lib import arrays
+arrays.FLOAT_AS[0] = "val"
 PROPERTY = "C10"
 LEVEL = "other"
 CONTRACT_MODULES = ["contracts.c10"]
 CARRIERS = ["batchie.core.ThetaHolder.get_theta", "batchie.core.ThetaHolder.add_theta", "batchie.core.ThetaHolder.combine",
-            "batchie.core.ThetaHolder.concat", "batchie.cli.evaluate_model.main@chain_ids"]
+            "batchie.core.ThetaHolder.concat", "batchie.cli.evaluate_model.main@chain_ids", "scenarios.c10.holder_roundtrip"]
 NATIVE = "c10.py"
 EXPLANATION = (
     "PROVED from the bodies, for every number of chains and of samples per chain: get_theta refuses exactly the positions outside "
